@@ -1,3 +1,119 @@
-import OptreeModel.Model.Eval
+/-
+  C10  Transposition swaps outer and inner structure without losing or moving values.
+
+  The list-level core of `tree_transpose` (ops.py:1053-1128): the leaves are cut into `m` rows of
+  `n`, the rows are transposed (`zip(*rows)`), each column becomes an outer-shaped subtree and the
+  inner treespec is unflattened over them.  What `unflatten` builds is C01's subject.
+-/
+import OptreeModel.Model.Ops
+
 namespace Optree
+
+theorem chunks_length (n m : Nat) (xs : List PyObj) : (chunks n m xs).length = m := by
+  induction m generalizing xs with
+  | zero => rfl
+  | succ k ih => simp [chunks, ih]
+
+/-- cutting `m * n` leaves into `m` rows of `n` loses nothing and moves nothing -/
+theorem C10_chunks_flatten (n m : Nat) (xs : List PyObj) (h : xs.length = m * n) :
+    (chunks n m xs).flatten = xs := by
+  induction m generalizing xs with
+  | zero => simp at h; subst h; rfl
+  | succ k ih =>
+    simp only [chunks, List.flatten_cons]
+    rw [ih (xs.drop n) (by simp [h, Nat.succ_mul])]
+    exact List.take_append_drop n xs
+
+/-- every row has exactly `n` entries -/
+theorem C10_chunks_row_length (n m : Nat) (xs : List PyObj) (h : xs.length = m * n) :
+    ∀ r ∈ chunks n m xs, r.length = n := by
+  induction m generalizing xs with
+  | zero => intro r hr; simp [chunks] at hr
+  | succ k ih =>
+    intro r hr
+    simp only [chunks, List.mem_cons] at hr
+    rcases hr with hr | hr
+    · subst hr
+      simp [h, Nat.succ_mul]
+    · exact ih (xs.drop n) (by simp [h, Nat.succ_mul]) r hr
+
+/-- the i-th row holds the leaves `i*n … i*n+n-1` (outer leaf `i`, inner leaves in order) -/
+theorem C10_chunks_get (n m : Nat) (xs : List PyObj) (i : Nat) (hi : i < m) :
+    (chunks n m xs)[i]? = some ((xs.drop (i * n)).take n) := by
+  induction m generalizing xs i with
+  | zero => omega
+  | succ k ih =>
+    cases i with
+    | zero => simp [chunks]
+    | succ j =>
+      simp only [chunks, List.getElem?_cons_succ]
+      rw [ih (xs.drop n) j (by omega)]
+      simp [List.drop_drop, Nat.succ_mul, Nat.add_comm]
+
+/-- `zip(*rows)` of `m > 0` rows of equal length `n` has `n` columns of `m` entries, and column `j`
+lists the `j`-th entry of every row: the value at (inner `j`, outer `i`) is the input's value at
+(outer `i`, inner `j`) -/
+theorem C10_transpose_rows (rows : List (List PyObj)) (n : Nat) (hne : rows ≠ [])
+    (hrow : ∀ r ∈ rows, r.length = n) :
+    transposeRows rows = (List.range n).map fun j => rows.map fun r => r[j]! := by
+  unfold transposeRows zipArgs
+  cases rows with
+  | nil => exact absurd rfl hne
+  | cons r rs =>
+    simp only
+    have hmin : ((r :: rs).map List.length).foldl min (r :: rs).head!.length = n := by
+      have h0 : r.length = n := hrow r (by simp)
+      have : ∀ (ls : List (List PyObj)) (acc : Nat), (∀ l ∈ ls, l.length = n) → acc = n →
+          (ls.map List.length).foldl min acc = n := by
+        intro ls
+        induction ls with
+        | nil => intro acc _ ha; simpa using ha
+        | cons l ls ih =>
+          intro acc hl ha
+          simp only [List.map_cons, List.foldl_cons]
+          apply ih _ (fun l' hl' => hl l' (by simp [hl']))
+          rw [ha, hl l (by simp)]
+          exact Nat.min_self n
+      exact this (r :: rs) _ hrow (by show r.length = n; exact h0)
+    rw [hmin]
+
+/-- the guards of `tree_transpose`: empty structures and mismatching `none_is_leaf` are rejected -/
+theorem C10_rejects (cfg : Cfg) (outer inner : Spec) (t : PyObj)
+    (h : outer.noneIsLeaf ≠ inner.noneIsLeaf ∨
+         (outer.sane = true ∧ inner.sane = true ∧ (outer.numLeaves = 0 ∨ inner.numLeaves = 0))) :
+    treeTranspose cfg outer inner t = .error .value := by
+  unfold treeTranspose
+  rcases h with h | ⟨h1, h2, h3⟩
+  · simp [h]
+  · by_cases hn : outer.noneIsLeaf = inner.noneIsLeaf
+    · simp only [hn, bne_self_eq_false, Bool.false_eq_true, if_false, h1, h2, Bool.not_true,
+        Bool.or_self]
+      rcases h3 with h3 | h3 <;> simp [h3]
+    · simp [hn]
+
+/-- a tree whose leaf count is not `m * n` is rejected (with `TypeError`, or with the error of
+`outer.compose(inner)` if even that fails) -/
+theorem C10_wrong_count (cfg : Cfg) (outer inner : Spec) (t : PyObj) (r : PyObj)
+    (h : treeTranspose cfg outer inner t = .ok r) :
+    ∃ ls sp, flatten { cfg with noneIsLeaf := outer.noneIsLeaf,
+                                 ns := if outer.ns != "" then outer.ns else inner.ns } t = .ok (ls, sp) ∧
+      sp.numLeaves = outer.numLeaves * inner.numLeaves := by
+  unfold treeTranspose at h
+  split at h; · simp at h
+  split at h; · simp at h
+  simp only at h
+  split at h; · simp at h
+  split at h; · simp at h
+  split at h; · simp at h
+  rename_i ls sp hflat
+  split at h
+  · split at h <;> simp at h
+  · rename_i hc
+    exact ⟨ls, sp, hflat, by simpa using hc⟩
+
+/-! ### non-vacuity -/
+
+example : chunks 2 3 [.leaf 0 1, .leaf 0 2, .leaf 0 3, .leaf 0 4, .leaf 0 5, .leaf 0 6] =
+    [[.leaf 0 1, .leaf 0 2], [.leaf 0 3, .leaf 0 4], [.leaf 0 5, .leaf 0 6]] := by rfl
+
 end Optree
